@@ -640,7 +640,38 @@ def r04_9(ctx):
                'the region of level l: incidence_matrix() raises, the HB basis becomes linearly dependent)' % src(e)[:120], definite=True)
 
 
+
+def r04_10(ctx):
+    """The marking mode of HSpace.refine / refine_region is the caller's explicit choice with default False (HB neighbourhoods, which bound
+    the supports of the hierarchical B-splines): it is not taken from the space's evaluation flag `self.truncate`.  With T-neighbourhoods as
+    the default of a truncate=True space, an active function of level k is nonzero on active cells of level k+d+1 after default refinement."""
+    n = 0
+    for name in ('refine', 'refine_region'):
+        f = ctx.prog.maybe_func(H + '.HSpace.' + name)
+        if f is None:
+            continue
+        a = f.node.args
+        pos = a.posonlyargs + a.args
+        dflt = {x.arg: d for x, d in zip(pos[::-1], a.defaults[::-1])}
+        if 'truncate' not in dflt:
+            continue
+        n += 1
+        d = dflt['truncate']
+        from_self = [s for s in ast.walk(f.node) if isinstance(s, (ast.Assign, ast.IfExp, ast.BoolOp)) and 'self.truncate' in src(s)
+                     and (not isinstance(s, ast.Assign) or any(isinstance(t, ast.Name) and t.id == 'truncate' for t in s.targets))]
+        if from_self:
+            ctx.violated('R04.10', f.qual, src(from_self[0])[:80], from_self[0],
+                         'the marking mode defaults to the evaluation flag of the space: a THB space with finite disparity is refined with the '
+                         'T-neighbourhood, which bounds only the truncated supports -- the disparity clause (no active function of level k on an '
+                         'active cell of level k+d+1) fails after default refine() calls')
+        else:
+            ok = isinstance(d, ast.Constant) and d.value is False
+            ctx.decide('R04.10', f.qual, 'truncate=%s' % src(d), True if ok else None, f.node, 'HB neighbourhoods unless the caller asks otherwise')
+    ctx.floor('R04.10', 'refinement entry points with a marking mode', n, 1)
+
+
 def run(ctx):
+    r04_10(ctx)
     r04_9(ctx)
     # R04.8 = R05.6: structure of the truncation (HB <-> THB transforms and represent_fine are observed by this property)
     import rules.C05 as c05
